@@ -217,4 +217,67 @@ def boxSteps : List (Option Int) := [none, some 1, some 2, some 3, some (-1), so
 example : ((List.range 5).all fun n => boxOpts.all fun a => boxOpts.all fun b => boxSteps.all fun c =>
     decide ((Py.sliceIndices (a, b, c) (n : Int)).bind Py.range3 = sliceSpec n a b c)) = true := by decide +kernel
 
+/-! ## chaining: `Populations.to_population` -/
+
+/-- **`Populations.to_population()` as translated** (populations over lists of trees): it succeeds, the chained population has length
+Σ, and its `[key]` is `ChainTrees.__getitem__` over the members in order — by `generated_chain_getitem` the element the model's
+(member, local index) designates, IndexError exactly when the model raises -/
+theorem generated_to_population (ps : PopulationsL) :
+    let trees := ps.populations.map (·.trees)
+    ∃ c : PopChain, popsl_to_population (trees.length + 1) ps = some c ∧
+      popc_len c = some ((chainLen (trees.map List.length) : Nat) : Int) ∧
+      ∀ key, popc_getitem_int (trees.length + 1) c key =
+        (chainGet (trees.map List.length) key).bind (fun mj => (trees[mj.1]?).bind (fun t => t[mj.2]?)) := by
+  intro trees
+  have hloop : ∀ (xs : List PopList) (v : popsl_to_population.V),
+      Py.forEach popsl_to_population.for1 xs v = .next (xs.foldl (fun v x => { v with c0_ := v.c0_ ++ [x.trees], p := x }) v) :=
+    Py.forEach_pure _ _ (fun _ _ => rfl)
+  have hf : ∀ (xs : List PopList) (v : popsl_to_population.V),
+      (xs.foldl (fun (v : popsl_to_population.V) x => { v with c0_ := v.c0_ ++ [x.trees], p := x }) v).c0_ = v.c0_ ++ xs.map (·.trees) := by
+    intro xs
+    induction xs with
+    | nil => intro v; simp
+    | cons x xs ih => intro v; simp [ih]
+  let c : ChainTrees := ⟨trees, castL (Pop.cumsum (trees.map List.length))⟩
+  have hinit := generated_chain_init default trees
+  have hlen := generated_chain_len trees
+  have hget := generated_chain_getitem trees
+  -- the constructor's probe `swcs[0]` succeeds whenever the chain is not empty
+  have hprobe : (chainLen (trees.map List.length) : Int) > 0 → ∃ t, chain_getitem (trees.length + 1) c 0 = some t := by
+    intro hpos
+    have hsum : 0 < (trees.map List.length).sum := by rw [← C19.chain_len]; exact_mod_cast hpos
+    obtain ⟨m, j, e, hm, hj, _⟩ := chain_index (trees.map List.length) 0 hsum
+    simp only [List.length_map] at hm
+    have hj' : j < (trees[m]).length := by simpa [List.getD, hm] using hj
+    refine ⟨(trees[m])[j], ?_⟩
+    have := hget 0
+    have e' : chainGet (trees.map List.length) 0 = some (m, j) := by simpa using e
+    rw [this, e']
+    simp [hm, hj']
+  have hpc : popc_init (trees.length + 1) default c "" = some (⟨c, ""⟩, ()) := by
+    by_cases hpos : (chainLen (trees.map List.length) : Int) > 0
+    · obtain ⟨t, ht⟩ := hprobe hpos
+      have hneN : ¬ chainLen (trees.map List.length) = 0 := by omega
+      simp [popc_init, popc_init.body, Py.seq, Py.skip, Py.bind, c, hlen, ht, hneN, Py.finish]
+    · have h0N : chainLen (trees.map List.length) = 0 := by omega
+      simp [popc_init, popc_init.body, Py.seq, Py.bind, c, hlen, h0N, Py.finish]
+  refine ⟨⟨c, ""⟩, ?_, ?_, ?_⟩
+  · have hc0 : ([] : List (List Int)) ++ ps.populations.map (·.trees) = trees := by simp [trees]
+    simp only [popsl_to_population, popsl_to_population.body, Py.seq, Py.bindS]
+    rw [hloop]
+    have hpc' : popc_init (trees.length + 1) default ⟨trees, castL (Pop.cumsum (trees.map List.length))⟩ "" =
+        some (⟨⟨trees, castL (Pop.cumsum (trees.map List.length))⟩, ""⟩, ()) := hpc
+    simp only [hf, hc0, Py.bind, hinit, hpc', Py.finish, Option.map]
+    rfl
+  · simp [popc_len, popc_len.body, Py.bind, c, hlen, Py.finish]
+  · intro key
+    simp only [popc_getitem_int, popc_getitem_int.body, Py.seq, Py.skip, Py.bind]
+    rw [← hget key]
+    cases chain_getitem (trees.length + 1) c key <;> simp [c, Py.finish]
+
+/-- non-vacuity (kernel-evaluated): three populations of 2, 0, 3 trees -/
+example : (popsl_to_population 4 ⟨0, [⟨[10, 11], ""⟩, ⟨[], ""⟩, ⟨[30, 31, 32], ""⟩], []⟩).map
+      (fun c => (popc_len c, [0, 1, 2, 4, -1, 5, -6].map (popc_getitem_int 4 c))) =
+    some (some 5, [some 10, some 11, some 30, some 32, some 32, none, none]) := by decide +kernel
+
 end C19
